@@ -243,7 +243,7 @@ Lemma started_all_open c ops : let s := run (ready c) ops in
   (l_state s = SReady \/ l_state s = SStarted) -> l_closed s = [].
 Proof. intros s H. pose proof (form_reachable c ops) as F. fold s in F. destruct F; simpl in *; destruct H; try reflexivity; congruence. Qed.
 
-Definition ex_cfg : cfg := mkCfg 2 true true true true true.
+Definition ex_cfg : cfg := mkCfg 3 2 true true true true true true.
 Example ex_full_stop : released (run (ready ex_cfg) [OStart true; ORebind; OStop]) = true /\
                        released (run (ready ex_cfg) [OStart true; ORebind]) = false /\
                        length (l_acts (run (ready ex_cfg) [OStart true])) = 18%nat.
@@ -286,4 +286,19 @@ Proof.
   apply N.eqb_eq in E1. apply negb_true_iff in E2.
   apply in_app_or in Hr as [Hr|Hr]; apply in_spawn in Hr as (Ht & _ & _); simpl in Ht;
     repeat (destruct Ht as [<-|Ht]; [simpl in E1; try discriminate; simpl in E2; discriminate|]); destruct Ht.
+Qed.
+
+(* ---- every listener Main opened is closed by Stop, whether or not it ever had a reader ------------------------------ *)
+Lemma listeners_ledger c ops : let s := run (ready c) ops in
+  (l_state s = SStopped -> udp_open s = 0%nat) /\
+  (l_state s = SReady \/ l_state s = SStarted -> udp_open s = k_configured c) /\
+  (k_routines c <= k_configured c)%nat /\ (k_routines c <= k_queues c)%nat.
+Proof.
+  intros s. pose proof (form_reachable c ops) as F. fold s in F. split; [|split; [|split]].
+  - intro St. destruct F; simpl in St; try discriminate; reflexivity.
+  - intro St. destruct F; simpl in St; destruct St; try discriminate; reflexivity.
+  - unfold k_routines. destruct (Nat.ltb 1 (k_configured c) && negb (k_multi c)) eqn:E.
+    + apply andb_prop in E as [E _]. apply Nat.ltb_lt in E. pose proof (Nat.le_min_l 1 (k_queues c)). lia.
+    + apply Nat.le_min_l.
+  - unfold k_routines. apply Nat.le_min_r.
 Qed.
